@@ -509,4 +509,66 @@ theorem commits_perm {w : Width} {init : Word w} {progs : List (List (Oper w))} 
   rw [hops, hp]; simp
 
 
+/-! ### a sequential history determines the object's value -/
+
+theorem replay_foldl {w : Width} (init : Word w) : ∀ (log : List (Event w)) (c : Word w),
+    replay init log = some c → c = ((commits log).map (·.2.1)).foldl applyOp init := by
+  intro log
+  induction log using List.reverseRecOn with
+  | nil => intro c h; simp [replay] at h; simp [commits, h]
+  | append_singleton l e ih =>
+    intro c h
+    rw [replay_append] at h
+    cases hk : e.kind with
+    | read =>
+      simp only [applyEv, hk] at h
+      have := ih c h
+      simp [commits, List.filterMap_append, hk] at this ⊢
+      exact this
+    | commit o r =>
+      simp only [applyEv, hk] at h
+      cases hr : replay init l with
+      | none => simp [hr] at h
+      | some c0 =>
+        have h0 := ih c0 hr
+        simp only [hr] at h
+        cases hs : o.spec c0 with
+        | none => simp [hs] at h
+        | some p =>
+          obtain ⟨c', r'⟩ := p
+          simp only [hs] at h
+          by_cases hrr : r' = r
+          · simp [hrr] at h
+            simp only [commits, List.filterMap_append, List.map_append, List.foldl_append] at h0 ⊢
+            simp [hk, ← h0, applyOp, hs, h]
+          · simp [hrr] at h
+
+/-- unpacking `noCommitSince = false`: after thread `t`'s latest logged access another thread committed -/
+theorem noCommitSinceRev_false {w : Width} (t : Nat) : ∀ (l : List (Event w)), noCommitSinceRev t l = false →
+    ∃ l1 e l2, l = l1 ++ e :: l2 ∧ e.kind.isCommit = true ∧ e.tid ≠ t ∧ ∀ e' ∈ l1, e'.tid ≠ t := by
+  intro l
+  induction l with
+  | nil => intro h; simp [noCommitSinceRev] at h
+  | cons e l ih =>
+    intro h
+    simp only [noCommitSinceRev] at h
+    by_cases het : e.tid = t
+    · simp [het] at h
+    · simp only [het, if_false, Bool.and_eq_false_iff, Bool.not_eq_false'] at h
+      rcases h with h | h
+      · exact ⟨[], e, l, rfl, h, het, by simp⟩
+      · obtain ⟨l1, e', l2, hl, hc, ht, hall⟩ := ih h
+        refine ⟨e :: l1, e', l2, by simp [hl], hc, ht, ?_⟩
+        intro x hx
+        rcases List.mem_cons.mp hx with rfl | hx
+        · exact het
+        · exact hall x hx
+
+theorem noCommitSince_false {w : Width} (t : Nat) (log : List (Event w)) (h : noCommitSince t log = false) :
+    ∃ l1 e l2, log = l1 ++ e :: l2 ∧ e.kind.isCommit = true ∧ e.tid ≠ t ∧ ∀ e' ∈ l2, e'.tid ≠ t := by
+  obtain ⟨l1, e, l2, hl, hc, ht, hall⟩ := noCommitSinceRev_false t log.reverse h
+  refine ⟨l2.reverse, e, l1.reverse, ?_, hc, ht, by simpa using hall⟩
+  have := congrArg List.reverse hl
+  simpa using this
+
 end ChibiVerif.Atomics
